@@ -1,1 +1,8 @@
+import Aqua.Base.Basic
 import Aqua.Semver
+import Aqua.Gen.ErrorCodes
+import Aqua.Gen.Consts
+import Aqua.Run.SizeLimits
+import Aqua.Run.Runner
+import Aqua.Run.ErrorCodes
+import Aqua.Run.Staged
